@@ -764,12 +764,15 @@ pub fn gen_fold_repeat(rng: &mut Rng, variant: usize) -> ConnCase {
             r.raw = Some(raw);
             reqs.push(r);
             script.push(simple_action(0, rng));
-            let bad = format!("POST /two HTTP/1.1\r\nHost: x\r\n{}{}\r\nContent-Length: 31\r\n\r\nGET /smuggled HTTP/1.1\r\nA: b\r\n\r\n", ws, line);
+            // (in HTTP/1.0 as well: line folding is not honoured there either)
+            let v = if rng.chance(1, 2) { "HTTP/1.0\r\nConnection: keep-alive" } else { "HTTP/1.1" };
+            let bad = format!("POST /two {}\r\nHost: x\r\n{}{}\r\nContent-Length: 31\r\n\r\nGET /smuggled HTTP/1.1\r\nA: b\r\n\r\n", v, ws, line);
             reqs.push(AReq::bad("smug", bad.into_bytes()));
         }
         1 => {
             // the same head carries the line twice: once well-formed, once folded
-            let bad = format!("POST /x HTTP/1.1\r\nHost: x\r\n{}\r\n{}{}\r\n\r\nabcGET /next HTTP/1.1\r\n\r\n", line, ws, line);
+            let v = if rng.chance(1, 2) { "HTTP/1.0\r\nConnection: keep-alive" } else { "HTTP/1.1" };
+            let bad = format!("POST /x {}\r\nHost: x\r\n{}\r\n{}{}\r\n\r\nabcGET /next HTTP/1.1\r\n\r\n", v, line, ws, line);
             reqs.push(AReq::bad("smug", bad.into_bytes()));
         }
         _ => {
@@ -777,7 +780,10 @@ pub fn gen_fold_repeat(rng: &mut Rng, variant: usize) -> ConnCase {
             let name = *rng.pick(&["content-length", "CONTENT-LENGTH", "Content-length", "cOnTeNt-LeNgTh"]);
             let val = *rng.pick(&["", "+5", "-5", "5x", "abc", "5, 5", "5 5", "18446744073709551616", "0x10"]);
             let first = if rng.chance(1, 3) { "Content-Length: 5\r\n" } else { "" };
-            let bad = format!("POST /first HTTP/1.1\r\nHost: x\r\n{}{}: {}\r\n\r\nGET /smuggled HTTP/1.1\r\nHost: x\r\n\r\n", first, name, val);
+            // ... wherever it stands in the head: behind 99, 100 or 150 other fields too
+            let pads: String = (0..*rng.pick(&[0usize, 0, 99, 100, 150])).map(|k| format!("X-Pad-{}: {}\r\n", k, k)).collect();
+            let name = if pads.is_empty() { name } else { *rng.pick(&[name, "Content-Length"]) };
+            let bad = format!("POST /first HTTP/1.1\r\nHost: x\r\n{}{}{}: {}\r\n\r\nGET /smuggled HTTP/1.1\r\nHost: x\r\n\r\n", pads, first, name, val);
             reqs.push(AReq::bad("smug", bad.into_bytes()));
         }
     }
@@ -801,6 +807,10 @@ pub fn gen_c12(rng: &mut Rng) -> ConnCase {
         // a request need not carry any header field at all
         if rng.chance(1, 6) {
             r.hdrs.clear();
+        }
+        // persistence is not a matter of the method (CONNECT, OPTIONS, extension methods, ...)
+        if rng.chance(1, 3) {
+            r.method = METHODS[rng.below(METHODS.len())].to_string();
         }
         let mut closes = false;
         if i == closing_at {
